@@ -754,6 +754,9 @@ func (st *runState) finishWith(ri *simcheck.RunInfo, sim *simrt.Sim, sys *System
 	fmt.Fprintf(h, "%x|%d", sim.TraceHash(), len(blocks))
 	ri.Hash = h.Sum64()
 	ri.Steps = sim.Steps
+	if sim.Resumes > 0 {
+		ri.Probes["woke-outside-the-baton-and-requeued"] += int(sim.Resumes)
+	}
 	ri.SimNanos = int64(time.Since(t0)) - s.Cfg.StartOffsetS*1e9
 	ri.NonTrivial = fired > 0 || sim.Multi > 0
 	if sim.Preempts > 0 {
